@@ -355,6 +355,37 @@ func (k Keeper) GetAccountStorage(ctx sdk.Context, address common.Address) evmty
 	return storage
 }
 
+// GetAddressesHavingStorageWithoutCode returns, in ascending order, the addresses which own storage records
+// but no code hash record (accounts deployed with empty code).
+func (k Keeper) GetAddressesHavingStorageWithoutCode(ctx sdk.Context) []common.Address {
+	store := ctx.KVStore(k.storeKey)
+	iterator := storetypes.KVStorePrefixIterator(store, evmtypes.KeyPrefixStorage)
+	defer func() {
+		_ = iterator.Close()
+	}()
+
+	var addresses []common.Address
+	for ; iterator.Valid(); iterator.Next() {
+		key := iterator.Key()
+		if len(key) < len(evmtypes.KeyPrefixStorage)+common.AddressLength {
+			continue
+		}
+		addr := common.BytesToAddress(key[len(evmtypes.KeyPrefixStorage) : len(evmtypes.KeyPrefixStorage)+common.AddressLength])
+		if len(addresses) > 0 && addresses[len(addresses)-1] == addr {
+			continue
+		}
+		if !evmtypes.IsEmptyCodeHash(k.GetCodeHash(ctx, addr.Bytes())) {
+			continue
+		}
+		if !k.accountKeeper.HasAccount(ctx, addr.Bytes()) {
+			continue
+		}
+		addresses = append(addresses, addr)
+	}
+
+	return addresses
+}
+
 // ----------------------------------------------------------------------------
 // Account
 // ----------------------------------------------------------------------------
